@@ -1,4 +1,5 @@
 import ChessVerif.Props.C04
+import ChessVerif.Props.C04.Keys
 open Chess.Props.C04
 #print axioms eq_hash
 #print axioms eq_hash_WF
